@@ -109,8 +109,8 @@ var c35Atoms = []c35Atom{
 	{"X-Real-IP", "6.6.6.6", "7.7.7.7", true},
 	{"Forwarded", "for=6.6.6.6;host=evil.example.net;proto=http", "for=7.7.7.7", false},
 	// thorough only
-	{"X-Forwarded-Port", "1", "2", false},
-	{"X-Forwarded-Server", "evil.example.net", "evil2.example.net", false},
+	{"X-Forwarded-Port", "1", "2", true},
+	{"X-Forwarded-Server", "evil.example.net", "evil2.example.net", true},
 }
 
 const (
@@ -223,7 +223,10 @@ func c35Judge(cs c35Case, rec c35Record) (fails []string, info []string) {
 	}
 	sort.Strings(names)
 	for _, n := range names {
-		if n == "forwarded" || (strings.HasPrefix(n, "x-forwarded-") && n != "x-forwarded-for" && n != "x-forwarded-host" && n != "x-forwarded-proto") {
+		if strings.HasPrefix(n, "x-forwarded-") && n != "x-forwarded-for" && n != "x-forwarded-host" && n != "x-forwarded-proto" {
+			// the gateway asserts no other X-Forwarded-* header, so any value here is the client's
+			fails = append(fails, fmt.Sprintf("%s=%q passed through", n, by[n]))
+		} else if n == "forwarded" {
 			info = append(info, n)
 		}
 	}
@@ -496,7 +499,7 @@ type c35Result struct {
 }
 
 func c35Space(thorough bool) []c35Job {
-	nAtoms := 6
+	nAtoms := 7
 	spells := []int{c35SpellCanon, c35SpellLower, c35SpellDup, c35SpellUpperList}
 	if thorough {
 		nAtoms = 8
@@ -643,12 +646,12 @@ func c35(c *report.Check) {
 	c.Set("violating_inputs_total", failing)
 	c.Set("distinct_nontrivial", dist.N())
 	c.Set("not_judged_headers_passed_through", info)
-	c.Set("rule", "every subset of the spoofable header set {X-Forwarded-For, -Host, -Proto, True-Client-IP, X-Real-IP, Forwarded (thorough: + X-Forwarded-Port, X-Forwarded-Server)} x name/value spelling {canonical, lower-case name, two lines, upper-case name + comma list (thorough: + two lines with different name case, empty value)} x {with, without 'Connection:' listing the forwarding headers (HTTP/1.1)} x protocol {HTTP/1.1, HTTP/2, HTTP/3-style} x gateway port {443, 8443} x peer {IPv4, IPv6} x host form {bare, foreign port, gateway port, custom domain, mixed case, authority != SNI}; drivers: real tunnel handler with a wire-parsed request object, and the gateway's real tunnel http.Server over in-memory TLS (HTTP/1.1 raw bytes, HTTP/2 client); class = (driver, protocol, port, number of judged spoofed headers, hop trick)")
+	c.Set("rule", "every subset of the spoofable header set {X-Forwarded-For, -Host, -Proto, True-Client-IP, X-Real-IP, Forwarded, X-Forwarded-Port (thorough: + X-Forwarded-Server)} x name/value spelling {canonical, lower-case name, two lines, upper-case name + comma list (thorough: + two lines with different name case, empty value)} x {with, without 'Connection:' listing the forwarding headers (HTTP/1.1)} x protocol {HTTP/1.1, HTTP/2, HTTP/3-style} x gateway port {443, 8443} x peer {IPv4, IPv6} x host form {bare, foreign port, gateway port, custom domain, mixed case, authority != SNI}; drivers: real tunnel handler with a wire-parsed request object, and the gateway's real tunnel http.Server over in-memory TLS (HTTP/1.1 raw bytes, HTTP/2 client); class = (driver, protocol, port, number of judged spoofed headers, hop trick)")
 	c.Set("samples", dist.Samples)
 	c.Set("exhaustive", true)
 	c.Assume("stub TunnelServer: DialClient returns an in-memory connection to a recording HTTP/1.1 backend; the outbound request head is judged byte-for-byte as written on that connection",
 		"HTTP/3 is an HTTP/3-style request object handed to the real handler (no QUIC); HTTP/1.1 and HTTP/2 additionally run through the gateway's real http.Server over in-memory TLS",
-		"'X-Forwarded-*' is judged for the three headers the gateway asserts (For/Host/Proto); Forwarded and other X-Forwarded-<x> names are reported in not_judged_headers_passed_through only (DESIGN §7 C35)",
+		"'X-Forwarded-*': For/Host/Proto must carry the gateway's values; any other X-Forwarded-<x> header reaching the tunnel is a client value passed through (violation); the RFC 7239 'Forwarded' header is reported in not_judged_headers_passed_through only",
 		"requested host = request authority (Host); for HTTP/1.1 with SNI != Host only 'no client-supplied value' is judged for X-Forwarded-Host; host names compared case-insensitively",
 		"at most 25 violating inputs are written out; violating_inputs_total counts all")
 }
